@@ -8,7 +8,9 @@ int main(int argc, char **argv) {
   h_set_tuning((int)h_arg(argc, argv, 4, 1), (int)h_arg(argc, argv, 5, 1), (int)h_arg(argc, argv, 6, 1), (int)h_arg(argc, argv, 7, 1), (int)h_arg(argc, argv, 8, 1), (int)h_arg(argc, argv, 9, 20));
   unsigned symcols = (unsigned)h_arg(argc, argv, 10, -1); int milu = (int)h_arg(argc, argv, 11, 0), droprule = (int)h_arg(argc, argv, 12, 9), rowperm = (int)h_arg(argc, argv, 13, 0), tcode = (int)h_arg(argc, argv, 14, 0), dropmode = (int)h_arg(argc, argv, 15, 0), nrhs = (int)h_arg(argc, argv, 16, 1);
   unsigned tinymask = (unsigned)h_arg(argc, argv, 17, 0);   /* bit c: the sub-diagonal entry (c+1, c) -- or, when that is not stored, (c+2, c) -- of a concrete column c is made tiny (2^-40 times its generic value): dropped by the default rule */
+  int tiny_r = (int)h_arg(argc, argv, 18, -1), tiny_c = (int)h_arg(argc, argv, 19, -1);   /* alternatively: one explicit entry (tiny_r, tiny_c) made tiny */
   symmat_t S; symmat_build_cols(&S, n, n, pat, "a", symcols); char nm[32];
+  if (tiny_r >= 0) { int_t k = 0; for (int j = 0; j < n; j++) for (int i = 0; i < n; i++) if (S.D.nz[i][j]) { if (i == tiny_r && j == tiny_c && !((symcols >> j) & 1)) { S.val[k] = e_scale(S.val[k], (real_t)(1.0 / 1099511627776.0)); S.D.a[i][j] = S.val[k]; } k++; } }
   if (tinymask) { int_t k = 0; for (int j = 0; j < n; j++) for (int i = 0; i < n; i++) if (S.D.nz[i][j]) { if (((i == j + 1) || (i == j + 2 && !S.D.nz[j + 1][j])) && ((tinymask >> j) & 1) && !((symcols >> j) & 1)) { S.val[k] = e_scale(S.val[k], (real_t)(1.0 / 1099511627776.0)); S.D.a[i][j] = S.val[k]; } k++; } }
   elem_t v0[NMAX * NMAX]; int_t r0[NMAX * NMAX]; for (int_t k = 0; k < S.nnz; k++) { v0[k] = S.val[k]; r0[k] = S.rowind[k]; }
   elem_t *b = (elem_t *)malloc(sizeof(elem_t) * (n * nrhs + 1)), *b0 = (elem_t *)malloc(sizeof(elem_t) * (n * nrhs + 1)), *x = (elem_t *)malloc(sizeof(elem_t) * (n * nrhs + 1));
